@@ -80,6 +80,7 @@ CAT = [
     ('LocalOut', ['ar'], ['outsig'], 1),
 ]
 CAT_BY_NAME = {c[0]: c for c in CAT}
+IO_CLASSES = ('In', 'InFeedback', 'LagIn', 'InTrig', 'LocalIn', 'Out', 'ReplaceOut', 'OffsetOut', 'XOut', 'LocalOut')
 BINOPS = ['+', '-', '*', '/', '<', '>', 'min', 'max', '%']
 UNOPS = ['neg', 'abs', 'midicps', 'squared', 'tanh', 'reciprocal']
 CONSTS = [0, 1, -1, 0.5, 2, 440, 0.1, 0.25, 100, 3, 1000, -0.5, 0.001, 7, 1e-9, 16777217, 0.3, 1.5, 220.5, 12, 64]
@@ -354,6 +355,48 @@ def make_cases(ctx):
             prog['base'] = bool(prog['variants'])
         add('valid', prog)
 
+    # (a0) explicit zeros and empties: bus 0, no units at all, no constants, no controls, empty name,
+    #      zero / -0.0 / False defaults, empty variant key, variant of nothing
+    add('zero', {'name': 'z', 'params': [], 'variants': None, 'base': False,
+                 'body': [{'cls': 'SinOsc', 'meth': 'ar', 'args': [{'k': 440}, {'k': 0}]},
+                          {'cls': 'Out', 'meth': 'ar', 'args': [{'k': 0}, {'v': 0, 'single': 1}]}]},
+        python="SynthDesc.new_from(SynthDef('z', lambda: Out.ar(0, SinOsc.ar(440)))).outputs[0].starting_channel")
+    add('zero', {'name': 'e0', 'params': [], 'variants': None, 'body': [], 'base': False})
+    add('zero', {'name': '', 'params': [], 'variants': None, 'body': [], 'base': False})
+    add('zero', {'name': 'e1', 'params': [{'name': 'a', 'default': 0, 'annot': None}, {'name': 'b', 'default': -0.0, 'annot': 'ir'},
+                                          {'name': 'c', 'default': False, 'annot': 'tr'}, {'name': 'gate', 'default': 0.0, 'annot': None}],
+                 'variants': [['', [['a', 0]]], ['0', [['gate', -0.0]]]], 'body': [], 'base': True})
+    add('zero', {'name': 'e2', 'params': [{'name': 'bus', 'default': 0, 'annot': None}], 'variants': None, 'base': False,
+                 'body': [{'cls': 'In', 'meth': 'ar', 'args': [{'k': 0}, {'k': 1}]},
+                          {'cls': 'WhiteNoise', 'meth': 'ar', 'args': []},
+                          {'cls': 'Out', 'meth': 'ar', 'args': [{'k': -0.0}, {'v': 1, 'single': 1}]},
+                          {'cls': 'ReplaceOut', 'meth': 'ar', 'args': [{'p': 0, 'pick': 0, 'need': 'raw'}, {'v': 0, 'single': 1}]},
+                          {'cls': 'LocalIn', 'meth': 'ar', 'args': [{'k': 1}, {'k': 0}]},
+                          {'cls': 'XOut', 'meth': 'ar', 'args': [{'k': 0}, {'k': 0}, {'v': 1, 'single': 1}]}]})
+    # wide units: more than 255 outputs / inputs on one unit
+    add('wide', {'name': 'w1', 'params': [{'name': 'arr', 'default': [float(i) for i in range(300)], 'annot': None},
+                                          {'name': 'out', 'default': 0, 'annot': 'ir'}],
+                 'variants': None, 'base': False,
+                 'body': [{'cls': 'SinOsc', 'meth': 'ar', 'args': [{'k': 440}, {'k': 0}]},
+                          {'cls': 'Out', 'meth': 'ar', 'args': [{'p': 1, 'pick': 0, 'need': 'raw'},
+                                                               {'l': [{'v': 0, 'single': 1} for _ in range(300)]}]},
+                          {'cls': 'Out', 'meth': 'kr', 'args': [{'k': 0}, {'p': 0, 'need': 'raw'}]}]})
+    # float32 edge constants: denormal, largest, smallest normal, -0.0 next to 0.0, inf
+    edge = [1e-45, -1e-45, 3.4028234e38, -3.4028234e38, 1.17549435e-38, -0.0, 0.0, 16777217, 0.1, float('inf'), -float('inf')]
+    for j in range(0, len(edge), 3):
+        vals = edge[j:j + 3]
+        add('edge', {'name': 'ed%d' % j, 'params': [{'name': 'p', 'default': vals[0], 'annot': None}], 'variants': None, 'base': False,
+                     'body': [{'cls': 'SinOsc', 'meth': 'ar', 'args': [{'k': vals[0]}, {'k': vals[-1]}]},
+                              {'cls': 'LPF', 'meth': 'ar', 'args': [{'v': 0, 'single': 1}, {'k': vals[len(vals) // 2]}]},
+                              {'cls': 'Out', 'meth': 'ar', 'args': [{'k': 0}, {'v': 1, 'single': 1}]}]})
+    if not ctx.quick:
+        # counts at the int16 edge: the special index of the second control unit is 32767 (written) / 32768 (must raise)
+        for n, exp in [(32767, 'ok'), (32768, 'raise')]:
+            add('edge16', {'name': 'big%d' % n, 'params': [{'name': 'a', 'default': [0.5] * n, 'annot': 'ir'},
+                                                           {'name': 'b', 'default': 1, 'annot': None}],
+                           'variants': None, 'base': False,
+                           'body': [{'cls': 'Out', 'meth': 'kr', 'args': [{'k': 0}, {'p': 1, 'pick': 0, 'need': 'raw'}]}]}, expect=exp)
+
     # (b) names: boundary lengths, non-ASCII
     small = lambda: fixed_prog(rng)
     for n in [0, 1, 2, 31, 32, 33, 127, 128, 254, 255, 255, 256, 257, 300, 1000]:
@@ -596,9 +639,11 @@ STAGE = {1: 'the real bytes do not parse completely as one SCgf-2 definition (mo
          5: 'the library\'s SynthDesc reader and the model\'s read_desc disagree',
          6: 'the variants section differs from the valid prefix of the declared variants',
          8: 'SynthDesc.def_name_from_bytes and the model disagree on the definition name',
+         9: 'the parsed units / constants differ from what the live unit objects say (class, rate number, inputs as (unit, output) or constant index, output rates, special index, in order)',
+         10: 'the definition name in the bytes is not the name the SynthDef was given',
          7: 'the description read back from the bytes does not recover the declared parameters (name / slot / rate / default values / gate flag)'}
 
-SIGS = {'variant': 'C02:variant-count-without-variants', 'seq': 'C02:sequence-input-bytes'}
+SIGS = {'variant': 'C02:variant-count-without-variants', 'seq': 'C02:sequence-input-bytes', 'bus0': 'C02:iodesc-bus-zero'}
 
 
 def correspond(ctx):
@@ -623,6 +668,8 @@ def correspond(ctx):
             for j, o in enumerate(out):
                 outs[i + j * nproc] = o
 
+    bus0_reported = set()
+    bus0_fail = []
     items, item_case = [], []       # check_case items (real bytes)
     eitems, eitem_case = [], []     # check_expect items (writer guard: names / variants)
     for idx, (k, o) in enumerate(zip(cases, outs)):
@@ -662,15 +709,49 @@ def correspond(ctx):
             except oracle.FormatError:
                 pass
             decl = clist(['(%s, %s, %s, %s)' % (cb(n), cz(i), cz(r), clist(ws, cz)) for n, i, r, ws in o.get('decl', [])])
-            items.append('(check_case %s %s %s %s %s %s %s)' % (cb(b), c_order(o['order']), c_desc(o['desc']),
-                                                                c_names3(o['names3']), c_vsrc(k.get('variants')), decl,
-                                                                copt(o.get('defname'), cb)))
+            def c_in(i):
+                return '(IConst %s)' % cz(i[1]) if i[0] == -1 else '(IOut %s %s)' % (cz(i[0]), cz(i[1]))
+            truth = clist(['(mkUgen %s %s %s %s %s)' % (cb(u[0]), cz(u[1]), clist(u[2], c_in), clist(u[3], cz), cz(u[4]))
+                           for u in o.get('truth', [])])
+            items.append('(check_case %s %s %s %s %s %s %s %s %s %s)' % (
+                cb(b), c_order(o['order']), c_desc(o['desc']), c_names3(o['names3']), c_vsrc(k.get('variants')), decl,
+                copt(o.get('defname'), cb), cb(k['name']), truth, clist(o.get('truthk', []), cz)))
             item_case.append(idx)
             if o['nunits'] >= 2:
                 c.nontriv((k['name'], o['bytes'][:4000]))
         else:
             for e in o['exc'][:1]:
                 c.count('exc:' + e.split(':')[0])
+        # (falsy zero) an In/Out unit whose bus is a constant must be described by that constant, 0 included
+        if o.get('desc') and o.get('truth'):
+            io_units = [u for u in o['truth'] if u[0] in IO_CLASSES and u[2]]
+            descs = {}
+            for io in o['desc']['ins'] + o['desc']['outs']:
+                descs.setdefault(io[3], []).append(io)
+            for u in io_units:
+                lst = descs.get(u[0]) or []
+                if not lst:
+                    continue
+                io = lst.pop(0)
+                if u[2][0][0] == -1 and 0 <= u[2][0][1] < len(o['truthk']):
+                    w = o['truthk'][u[2][0][1]]
+                    if io[2] != ['c', w]:
+                        bus0_reported.add(idx)
+                        bus0_fail.append(Failure(
+                            'correspondence',
+                            'definition %r: the %s unit on constant bus %s is described with starting channel %r (the description does not recover the bus)' % (
+                                k['name'][:30], u[0], 'word 0x%08x' % w, '?' if io[2] == ['q'] else io[2]),
+                            signature=SIGS['bus0'] if (io[2] == ['q'] and w in (0, 0x80000000)) else None, found_input=True,
+                            theorem='reader_io_units',
+                            replay={'case': short(k), 'bytes': o['bytes'], 'observed': io, 'expected': ['c', w],
+                                    'python': k.get('python')}))
+                        break
+        for msg in o.get('cache') or []:
+            c.failures.append(Failure('correspondence', 'as_bytes() caching / aliasing, definition %r: %s' % (k['name'][:30], msg),
+                                      found_input=True, replay={'case': short(k), 'observed': msg}))
+        if o.get('leak'):
+            c.failures.append(Failure('correspondence', 'state leaked after definition %r (%s): %s' % (k['name'][:30], o['status'], o['leak']),
+                                      found_input=True, replay={'case': short(k), 'observed': o['leak']}))
         if expect == 'raise' and got_bytes:
             # an invalid graph / name / variant produced bytes: is the output at least a definition?
             why = oracle.check_bytes(b, [tuple(x) for x in o['order']])
@@ -698,6 +779,8 @@ def correspond(ctx):
                 ('(Some %s)' % cb(bytes.fromhex(o['bytes']))) if got_bytes else 'None'))
             eitem_case.append(idx)
 
+    bus0_fail.sort(key=lambda f: len(f.replay.get('bytes') or ''))
+    c.failures.extend(bus0_fail[:3])
     body = 'Eval vm_compute in bad_idx (fun c => c =? 0) cases.'
     bad, errs = fw.check_shards(ctx, 'real', HEADER, items, body, shard=ctx.n(12, 10), timeout=1500)
     body2 = 'Eval vm_compute in bad_idx (fun c => c) cases.'
@@ -716,6 +799,8 @@ def correspond(ctx):
         key = json.dumps(short(k), sort_keys=True)
         if key in reported:
             continue
+        if idx in bus0_reported and len(bus0_reported) > 3:
+            continue                  # same finding, already reported with its own message
         rc, out = ctx.coq('diag', HEADER + 'Eval vm_compute in %s.\n' % items[i], timeout=300)
         import re
         m = re.search(r'=\s*(\d+)', out)
@@ -728,7 +813,7 @@ def correspond(ctx):
             'definition %r (%d units, %d bytes%s): %s; independent reader: %s' % (
                 k['name'], o['nunits'], len(b), (', variants=%r' % (k['variants'],)) if k.get('variants') else '',
                 STAGE.get(stage, 'stage %s' % stage), why or 'accepts the bytes'),
-            signature=sig, found_input=(stage in (1, 2, 4, 7) or why is not None), theorem='scgf_roundtrip' if stage == 1 else None,
+            signature=sig, found_input=(stage in (1, 2, 4, 7, 9, 10) or why is not None), theorem='scgf_roundtrip' if stage == 1 else None,
             replay={'case': short(k), 'bytes': o['bytes'], 'stage': stage, 'order': o['order'], 'libdesc': o['desc'],
                     'libdesc_exc': o['desc_exc'], 'independent_reader': why}))
     for i in bad2[:12]:
@@ -755,8 +840,10 @@ def correspond(ctx):
     c.failures = first + rest
 
     nbridge = bridge_correspond(ctx, c)
+    nsyn = synthetic_correspond(ctx, c)
+    nhash = hashseed_correspond(ctx, c, cases, outs)
 
-    c.evaluations = len(cases) + nbridge
+    c.evaluations = len(cases) + nbridge + nsyn + nhash
     c.rule = ('real SynthDef builds of generated graph programs (catalogue of %d unit classes + arithmetic, controls, variants); '
               'model parser/wf_def/writer/read_desc evaluated by vm_compute on the real bytes; non-trivial = bytes were '
               'emitted for a definition with at least two units' % len(CAT))
@@ -772,11 +859,233 @@ def correspond(ctx):
     return c
 
 
+# ---------------------------------------------------------------------------
+# hand-made definitions: every field carries its own value, so that two swapped fields cannot cancel
+
+SYN_PLAIN = ['SinOsc', 'LPF', 'WhiteNoise', 'MulAdd', 'Saw', 'Lag']
+SYN_MULTI = ['Pan2', 'DC', 'Demand', 'Balance2']
+SYN_IN = ['In', 'InFeedback', 'LagIn', 'InTrig', 'LocalIn']
+SYN_OUT = ['Out', 'ReplaceOut', 'OffsetOut', 'XOut', 'LocalOut']
+SYN_CTL = ['Control', 'TrigControl', 'LagControl', 'AudioControl']
+SYN_WORDS = [0, 0x80000000, 0x3f800000, 0x43dc0000, 0x7f800000, 0xff800000, 1, 0x00800000, 0x7f7fffff, 0xbf000000]
+
+
+def gen_struct(rng):
+    name = ascii_name(rng, rng.choice([0, 1, 2, 5, 31, 127, 128, 255]))
+    consts = [rng.choice(SYN_WORDS) for _ in range(rng.choice([0, 1, 2, 5, 9]))]
+    nctl = rng.choice([0, 1, 2, 3, 7, 20])
+    ctl = [rng.choice(SYN_WORDS) for _ in range(nctl)]
+    # name table: distinct indices, slot 0 named (almost always), table order shuffled
+    idxs = [i for i in range(nctl) if i == 0 or rng.random() < 0.6]
+    if nctl and rng.random() < 0.06:
+        idxs = idxs[1:]                      # first slot unnamed: the reader raises
+    rng.shuffle(idxs)
+    pool = ['freq', 'amp', 'gate', 'out', 'bus', 'pan'] + ['c%d' % i for i in range(40)]
+    rng.shuffle(pool)
+    names = [[pool[j], i] for j, i in enumerate(idxs)]
+    units = []
+    multi = {}        # position -> number of outputs of multi-output units
+    # control units covering the slots in 1..3 groups
+    pos = 0
+    while pos < nctl:
+        n = rng.randint(1, nctl - pos)
+        units.append({'cls': rng.choice(SYN_CTL), 'rate': rng.choice([0, 1, 2]), 'ins': [], 'outs': None, 'nouts': n, 'special': pos})
+        multi[len(units) - 1] = n
+        pos += n
+    for _ in range(rng.choice([0, 1, 3, 6, 12])):
+        kind = rng.choice(['plain', 'plain', 'multi', 'in', 'out'])
+
+        def wire():
+            if consts and (not units or rng.random() < 0.35):
+                return [-1, rng.randrange(len(consts))]
+            if not units:
+                return None
+            u = rng.randrange(len(units))
+            if units[u]['nouts'] == 0:
+                return [-1, rng.randrange(len(consts))] if consts else None
+            return [u, rng.randrange(multi[u]) if u in multi else 0]
+        nin = rng.choice([1, 2, 3, 4, 5])
+        ins = [w for w in (wire() for _ in range(nin)) if w is not None]
+        if kind == 'plain':
+            u = {'cls': rng.choice(SYN_PLAIN), 'nouts': 1}
+        elif kind == 'multi':
+            u = {'cls': rng.choice(SYN_MULTI), 'nouts': rng.choice([1, 2, 3, 6, 130, 300])}
+        elif kind == 'in':
+            u = {'cls': rng.choice(SYN_IN), 'nouts': rng.choice([1, 2, 4])}
+        else:
+            u = {'cls': rng.choice(SYN_OUT), 'nouts': 0}
+        if kind in ('in', 'out') and not ins:
+            continue
+        u['rate'] = rng.choice([0, 1, 2, 3])
+        u['ins'] = ins
+        # special index: its own value, negative and > 127 included (signed 16 bit field)
+        u['special'] = rng.choice([0, 1, 7, 46, 127, 128, 255, 256, 32767, -1, -2, -32768, 9])
+        units.append(u)
+        if kind in ('multi', 'in'):
+            multi[len(units) - 1] = u['nouts']
+    for u in units:
+        u['outs'] = [u['rate'] if rng.random() < 0.8 else rng.choice([0, 1, 2, 3]) for _ in range(u['nouts'])]
+    variants = []
+    for j in range(rng.choice([0, 0, 1, 3])):
+        variants.append([name[:20] + '.v%d' % j, [rng.choice(SYN_WORDS) for _ in range(nctl)]])
+    return {'name': name, 'consts': consts, 'ctl': ctl, 'names': names, 'units': units, 'variants': variants}
+
+
+def enc_struct(S):
+    import struct
+
+    def ps(x):
+        b = x.encode('ascii')
+        return bytes([len(b)]) + b
+    out = b'SCgf' + struct.pack('>ih', 2, 1) + ps(S['name'])
+    out += struct.pack('>i', len(S['consts'])) + b''.join(struct.pack('>I', w) for w in S['consts'])
+    out += struct.pack('>i', len(S['ctl'])) + b''.join(struct.pack('>I', w) for w in S['ctl'])
+    out += struct.pack('>i', len(S['names'])) + b''.join(ps(n) + struct.pack('>i', i) for n, i in S['names'])
+    out += struct.pack('>i', len(S['units']))
+    for u in S['units']:
+        out += ps(u['cls']) + struct.pack('>biih', u['rate'], len(u['ins']), len(u['outs']), u['special'])
+        out += b''.join(struct.pack('>ii', a, b) for a, b in u['ins'])
+        out += b''.join(struct.pack('>b', r) for r in u['outs'])
+    out += struct.pack('>h', len(S['variants']))
+    for n, vals in S['variants']:
+        out += ps(n) + b''.join(struct.pack('>I', w) for w in vals)
+    return out
+
+
+def c_sdef(S):
+    def c_in(i):
+        return '(IConst %s)' % cz(i[1]) if i[0] == -1 else '(IOut %s %s)' % (cz(i[0]), cz(i[1]))
+    us = clist(['(mkUgen %s %s %s %s %s)' % (cb(u['cls']), cz(u['rate']), clist(u['ins'], c_in), clist(u['outs'], cz), cz(u['special']))
+                for u in S['units']])
+    return '(mkSdef %s %s %s %s %s %s)' % (
+        cb(S['name']), clist(S['consts'], cz), clist(S['ctl'], cz),
+        clist(['(%s, %s)' % (cb(n), cz(i)) for n, i in S['names']]), us,
+        clist(['(mkVariant %s %s)' % (cb(n), clist(v, cz)) for n, v in S['variants']]))
+
+
+RATE_NAMES = ['scalar', 'control', 'audio', 'demand']
+SYN_STAGE = {1: 'the model parser does not return the structure the bytes were made from (or accepts damaged bytes)',
+             3: 'the model writer does not reproduce the hand-made bytes', 5: 'SynthDesc reader <> read_desc on hand-made bytes',
+             8: 'def_name_from_bytes <> def_name_of on hand-made bytes'}
+
+
+def syn_field_mismatch(S, o):
+    """text describing the first field of S the library reader did not recover (None = all recovered)."""
+    if o['desc'] and o['desc']['name'] != S['name']:
+        return 'definition name %r read back as %r' % (S['name'][:30], o['desc']['name'][:30])
+    if o['desc'] and o['desc']['cnames'] != [n for n, _ in S['names']]:
+        return 'name table %r read back as %r' % ([n for n, _ in S['names']][:6], o['desc']['cnames'][:6])
+    if len(o['units']) != len(S['units']):
+        return '%d units read back from %d' % (len(o['units']), len(S['units']))
+    for pos, (u, r_) in enumerate(zip(S['units'], o['units'])):
+        cls_, rate, special, ins, nch = r_
+        want_ins = [['c', S['consts'][b_]] if a == -1 else ['u', a, b_] for a, b_ in u['ins']]
+        if cls_ != u['cls']:
+            return 'unit %d class %r read back as %r' % (pos, u['cls'], cls_)
+        if rate != RATE_NAMES[u['rate']]:
+            return 'unit %d rate %d read back as %r' % (pos, u['rate'], rate)
+        if special != u['special'] and u['cls'] not in tuple(SYN_MULTI) + tuple(SYN_IN):
+            return 'unit %d (%s) special index %d read back as %r' % (pos, u['cls'], u['special'], special)
+        if nch is not None and nch != len(u['outs']):
+            return 'unit %d has %d outputs, %r read back' % (pos, len(u['outs']), nch)
+        if ins != want_ins:
+            return 'unit %d inputs %r read back as %r' % (pos, want_ins[:4], ins[:4])
+    return None
+
+
+def synthetic_correspond(ctx, c):
+    """hand-made bytes -> model parser / writer / read_desc and the LIBRARY reader (SynthDesc._read_stream)."""
+    rng = ctx.rng
+    structs, blobs, ods = [], [], []
+    for _ in range(ctx.n(60, 600)):
+        S = gen_struct(rng)
+        b = enc_struct(S)
+        structs.append(S); blobs.append(b); ods.append(S)
+        r = rng.random()
+        if r < 0.15 and len(b) > 12:
+            cut = rng.randrange(10, len(b))
+            structs.append(S); blobs.append(b[:cut]); ods.append(None)        # truncated anywhere
+        elif r < 0.22:
+            structs.append(S); blobs.append(b + bytes([rng.randrange(256)] * rng.randint(1, 5))); ods.append(None)   # trailing bytes
+    outs = ctx.impl('c02_read', {'cases': [b.hex() for b in blobs]}, timeout=900)['out']
+    items = []
+    for S, b, od, o in zip(structs, blobs, ods, outs):
+        c.count('synthetic:' + ('intact' if od else 'damaged') + ':' + ('lib-accepts' if o['desc'] else 'lib-raises'))
+        items.append('(synth_check %s %s %s %s)' % (cb(b), copt(od, c_sdef), c_desc(o['desc']), copt(o.get('defname'), cb)))
+        if od and o['desc']:
+            c.nontriv(('syn', b.hex()[:3000]))
+        if o.get('leak'):
+            c.failures.append(Failure('correspondence', 'state leaked by the description reader: %s (library: %s)' % (o['leak'], o['exc'] or 'accepted'),
+                                      found_input=True, replay={'bytes': b.hex(), 'observed': o['leak']}))
+        # field by field against the structure (Python level, independent of the Coq model)
+        if od and o['units'] is not None:
+            bad = syn_field_mismatch(S, o)
+            if bad:
+                c.failures.append(Failure('correspondence', 'the library reader does not recover a field of a hand-made definition: ' + bad,
+                                          found_input=True, theorem='reader_recovers', replay={'bytes': b.hex(), 'struct': S, 'observed': bad}))
+        if False:
+            bad = None
+            if len(o['units']) != len(S['units']):
+                bad = '%d units read back from %d' % (len(o['units']), len(S['units']))
+            for pos, (u, r_) in enumerate(zip(S['units'], o['units'])):
+                if bad:
+                    break
+                cls_, rate, special, ins, nch = r_
+                want_ins = [['c', S['consts'][b_]] if a == -1 else ['u', a, b_] for a, b_ in u['ins']]
+                if cls_ != u['cls']:
+                    bad = 'unit %d class %r read back as %r' % (pos, u['cls'], cls_)
+                elif rate != RATE_NAMES[u['rate']]:
+                    bad = 'unit %d rate %d read back as %r' % (pos, u['rate'], rate)
+                elif special != u['special'] and u['cls'] not in ('Pan2', 'DC', 'Demand', 'Balance2') + tuple(SYN_IN):
+                    bad = 'unit %d (%s) special index %d read back as %r' % (pos, u['cls'], u['special'], special)
+                elif nch is not None and nch != len(u['outs']):
+                    bad = 'unit %d has %d outputs, %r read back' % (pos, len(u['outs']), nch)
+                elif ins != want_ins:
+                    bad = 'unit %d inputs %r read back as %r' % (pos, want_ins[:4], ins[:4])
+            if bad:
+                c.failures.append(Failure('correspondence', 'the library reader does not recover a field of a hand-made definition: ' + bad,
+                                          found_input=True, theorem='reader_recovers', replay={'bytes': b.hex(), 'struct': S, 'observed': bad}))
+    body = 'Eval vm_compute in bad_idx (fun c => c =? 0) cases.'
+    bad, errs = fw.check_shards(ctx, 'syn', HEADER, items, body, shard=ctx.n(15, 40), timeout=900)
+    for e in errs:
+        c.failures.append(Failure('correspondence', 'coq evaluation of hand-made cases failed: ' + e))
+    import re
+    for i in bad[:6]:
+        rc, out = ctx.coq('sdiag', HEADER + 'Eval vm_compute in %s.\n' % items[i], timeout=300)
+        mm = re.search(r'=\s*(\d+)', out)
+        stage = int(mm.group(1)) if mm else -1
+        c.failures.append(Failure('correspondence', 'hand-made definition (%d bytes, %s): %s; library reader: %s' % (
+            len(blobs[i]), 'intact' if ods[i] else 'damaged', SYN_STAGE.get(stage, 'stage %s' % stage),
+            'accepts' if outs[i]['desc'] else outs[i]['exc']),
+            found_input=(stage in (5, 8)), replay={'bytes': blobs[i].hex(), 'struct': structs[i], 'damaged': ods[i] is None,
+                                                   'libdesc': outs[i]['desc'], 'libexc': outs[i]['exc'], 'stage': stage}))
+    return len(blobs)
+
+
 BRIDGE_STAGE = {1: 'the compiler model and the library disagree on whether the program compiles',
                 2: 'a unit input constant is not in the constant table of the compiler model\'s output',
                 3: 'graph_ok fails on the compiler model\'s output (an input is not a collected constant / an output of a strictly earlier unit, or a field is out of range)',
                 4: 'wf_def fails on to_sdef of the compiler model\'s output',
                 5: 'write_def (to_sdef (compile p)) differs from the bytes the real SynthDef emits'}
+
+
+def hashseed_correspond(ctx, c, cases, outs):
+    """units / name table / variants order must not depend on PYTHONHASHSEED: same bytes, same order."""
+    pick = [i for i, (k, o) in enumerate(zip(cases, outs)) if o.get('bytes') and k.get('kind') in ('valid', 'multictl', 'variant')]
+    pick = pick[:ctx.n(25, 200)]
+    sub = [cases[i] for i in pick]
+    n = 0
+    for seed in (('987654',) if ctx.quick else ('1', '987654')):
+        res = ctx.impl('c02_build', {'cases': sub}, timeout=900, hashseed=seed)['out']
+        for i, r in zip(pick, res):
+            n += 1
+            if r.get('bytes') != outs[i]['bytes'] or r.get('order') != outs[i]['order']:
+                c.failures.append(Failure('correspondence', 'definition %r: bytes / unit order differ between PYTHONHASHSEED=0 and %s' % (
+                    cases[i]['name'][:30], seed), found_input=True, replay={'case': short(cases[i]), 'hashseed': seed,
+                                                                           'bytes0': outs[i]['bytes'], 'bytes': r.get('bytes')}))
+                break
+    c.count('hashseed-rebuilds', n)
+    return n
 
 
 def bridge_correspond(ctx, c):
@@ -831,6 +1140,26 @@ def bridge_correspond(ctx, c):
 def search(ctx, failures):
     """Independent reader over every real definition of this run (and the corpus)."""
     found = []
+    # hand-made definitions through the library reader, compared field by field (no Coq needed)
+    try:
+        import random
+        rng = random.Random(ctx.seed * 7919 + 2)
+        structs = [gen_struct(rng) for _ in range(150)]
+        blobs = [enc_struct(S) for S in structs]
+        res = ctx.impl('c02_read', {'cases': [b.hex() for b in blobs]}, timeout=600)['out']
+        for S, b, o in zip(structs, blobs, res):
+            if o.get('units') is not None:
+                bad = syn_field_mismatch(S, o)
+                if bad:
+                    found.append(Failure('search', 'the library reader does not recover a field of a hand-made definition: ' + bad,
+                                         found_input=True, theorem='reader_recovers', replay={'bytes': b.hex(), 'struct': S, 'observed': bad}))
+            if o.get('leak'):
+                found.append(Failure('search', 'state leaked by the description reader: ' + o['leak'], found_input=True,
+                                     replay={'bytes': b.hex(), 'observed': o['leak']}))
+            if len(found) >= 2:
+                break
+    except fw.ImplError as e:
+        fw.log('search: synthetic probe failed: %s' % e)
     cases, outs = getattr(ctx, 'c02_cases', (None, None))
     if cases is None:
         cases = make_cases(ctx)
